@@ -20,6 +20,9 @@ def run(res):
                  "SendMsg and RecvMsg at a chosen index, scripted server ending the RPC with a status, watchdogs, goroutine census"],
         assumptions=["PARTIAL claim: the Go scheduler, the sync.RWMutex writer preference and gRPC's stream semantics are runtime facts "
                      "taken from their documentation; the theorems are about the model, tied to the code by the outcome comparison",
+                     "clients created with options (PersistEntries / FIBACK / ElectedPrimaryClient): the session-parameters and election-id messages that "
+                     "StartSending queues are requests 0 (and 1) of the exchange in the model (one response each); that Reset leaves no stale election / "
+                     "session-parameters entry pending is checked on the implementation (Status / Pending right after Reset, convergence of the new stream)",
                      "stream abstraction: one response per request; a failed Send breaks Recv and vice versa; after CloseSend the server "
                      "ends the RPC once everything is answered; Send itself does not block for ever; a clean end (status OK) of the RPC is "
                      "io.EOF for Recv (not an error for the receiver) and io.EOF for every later Send (a send error)",
